@@ -104,3 +104,445 @@ Print Assumptions C10_fifty_never_early.
 Theorem C10_max_half_gen : Ink.Model.Tables.max_half_moves Ink.Gen.Tables.tables = 100.
 Proof. reflexivity. Qed.
 Print Assumptions C10_max_half_gen.
+
+(* ==================================================================================================================
+   SEARCH LEVEL (Proofs/RepetitionProofs.v): the repetition counter above, connected to the model of the search
+   (Model/Search.v: search_negamax = node_prelude + leaf_node + interior_node, set_position_from) and to
+   Heuristic::evaluate (Model/Heuristic.v).
+
+   Reading guide.
+   * `ply_clock_w b` is the u16 index the engine uses for board b (release profile); `clock_ok b` = side to move is a
+     colour and the full-move number is >= 1.
+   * `line_inv T base prefix zh st` is the invariant at the entry of a node whose state is st:
+       zh = zobrist_hash T (s_board st), ply_clock_w (s_board st) = base + |prefix|, the history holds
+       zobrist_hash T prefix[i] at index base + i, and is 0 below base          (C10_line_inv_spec).
+     prefix = positions of the game (from the FEN on) ++ positions of the current line above the node.
+   * `repetition_flag ply zh st` is the model's own draw test on state st (set, then `ply > 0 && count >= 3`);
+     `repetition_leaf_taken` = the poll at the top of the node lets it run and the flag is set.
+   * `search_family T good Q` = C03_family (make/unmake inverse on the boards met, Proofs/SearchProofs.v) + the side
+     conditions of C06_incremental on those boards + full-move number >= 1 + shape of the key tables.
+   ================================================================================================================== *)
+Require Import Ink.Lib.Str.
+Require Import ZArith List Bool.
+Require Import Ink.Model.Board Ink.Model.Fen Ink.Model.Notation Ink.Model.Heuristic Ink.Model.UciTx Ink.Model.Search.
+Require Import Ink.Proofs.SearchProofs Ink.Proofs.RepetitionProofs.
+Require Ink.Proofs.ZobristProofs Ink.Proofs.UciMovesProofs Ink.Proofs.MakeUnmake.
+Import ListNotations.
+Open Scope N_scope.
+
+(* ---- ply clocks: one move, one index (range: no u16 wrap; a fortiori no u32 wrap) ---- *)
+Theorem C10_ply_clock_make : forall b m b', clock_ok b -> make b m = Some b' -> ply_clock_w b < 65535 ->
+  clock_ok b' /\ ply_clock_w b' = ply_clock_w b + 1.
+Proof. exact ply_clock_make. Qed.
+Print Assumptions C10_ply_clock_make.
+
+Theorem C10_ply_clock_make_range : forall b m b', clock_ok b -> make b m = Some b' ->
+  2 * (full b - 1) + turn b + 1 < 65536 ->
+  ply_clock_w b = 2 * (full b - 1) + turn b /\ ply_clock_w b' = 2 * (full b - 1) + turn b + 1.
+Proof. exact ply_clock_make_range. Qed.
+Print Assumptions C10_ply_clock_make_range.
+
+(* in general the clock advances modulo 2^16 *)
+Theorem C10_ply_clock_make_mod : forall b m b', clock_ok b -> make b m = Some b' ->
+  clock_ok b' /\ ply_clock_w b' = (ply_clock_w b + 1) mod 65536.
+Proof. exact ply_clock_make_mod. Qed.
+Print Assumptions C10_ply_clock_make_mod.
+
+(* Board.ply_clock (debug profile, with its panics) is the same number whenever it does not panic *)
+Theorem C10_ply_clock_option : forall b v, ply_clock b = Some v -> v = ply_clock_w b.
+Proof. exact ply_clock_option. Qed.
+Print Assumptions C10_ply_clock_option.
+
+(* ---- C10_game_history_recorded: `position fen f moves ...` ----
+   G n = any family of sets of boards on which C03 holds and such that a legal move leads from G (S n) to G n
+   (n = moves still to play; a set closed under legal moves -- Hpres of C13 -- is the constant family; the chess
+   instance is Proofs/ChessInstance.v good_chess, see C10_*_chess at the end of this file).
+   The history is EXACTLY record_from hempty (ply clock of the FEN position) (hashes of P0, P1, ..., Pn),
+   P0 = board_of_fen f, P(i+1) = make Pi mi, and the ply clocks are consecutive. *)
+Theorem C10_game_history_recorded : forall (T : Ink.Model.Tables.t) (G : nat -> board -> Prop),
+  Ink.Proofs.MakeUnmake.tables_castle_ok T = true ->
+  (forall n x, G n x -> Ink.Proofs.UciMovesProofs.good x) ->
+  (forall n x m x', G (S n) x -> In m (gen_pseudo T x) -> make x m = Some x' -> is_valid T x' = true -> G n x') ->
+  forall f moves b h played,
+  let P0 := board_of_fen f in
+  G (length moves) P0 -> 1 <= full P0 -> ply_count P0 + N.of_nat (length moves) < 65536 ->
+  position_result T f moves = PosOk b h played ->
+  exists bs,
+    legal_line T P0 played bs /\ length played = length moves /\ b = last bs P0 /\
+    (forall i B, nth_error (P0 :: bs) i = Some B -> ply_clock_w B = ply_clock_w P0 + N.of_nat i) /\
+    h = record_from hempty (ply_clock_w P0) (map (zobrist_hash T) (P0 :: bs)).
+Proof. exact game_history_recorded. Qed.
+Print Assumptions C10_game_history_recorded.
+
+(* without any hypothesis: every position the model passes through is stored at its own ply clock *)
+Theorem C10_game_history_general : forall T f moves b h played,
+  position_result T f moves = PosOk b h played ->
+  exists bs, game_line T (board_of_fen f) moves played bs /\ b = last bs (board_of_fen f) /\
+             h = record_boards T hempty (board_of_fen f :: bs).
+Proof. exact position_result_general. Qed.
+Print Assumptions C10_game_history_general.
+
+Theorem C10_set_position_from_ok : forall T f moves st b h played, position_result T f moves = PosOk b h played ->
+  s_board (set_position_from T f moves st) = b /\ s_history (set_position_from T f moves st) = h /\
+  s_pmoves (set_position_from T f moves st) = played /\ s_contempt (set_position_from T f moves st) = s_contempt st.
+Proof. exact set_position_from_ok. Qed.
+Print Assumptions C10_set_position_from_ok.
+
+(* ... and the state the position command leaves behind satisfies the invariant of the search, with the game
+   (all positions but the current one) as prefix *)
+Theorem C10_position_root_inv : forall (T : Ink.Model.Tables.t) (G : nat -> board -> Prop) f moves b h played st,
+  Ink.Proofs.MakeUnmake.tables_castle_ok T = true ->
+  (forall n x, G n x -> Ink.Proofs.UciMovesProofs.good x) ->
+  (forall n x m x', G (S n) x -> In m (gen_pseudo T x) -> make x m = Some x' -> is_valid T x' = true -> G n x') ->
+  let P0 := board_of_fen f in
+  G (length moves) P0 -> 1 <= full P0 -> ply_count P0 + N.of_nat (length moves) < 65536 ->
+  position_result T f moves = PosOk b h played ->
+  exists bs, legal_line T P0 played bs /\ b = last bs P0 /\
+    line_inv T (ply_clock_w P0) (removelast (P0 :: bs)) (zobrist_hash T b) (set_position_from T f moves st).
+Proof. exact position_root_inv. Qed.
+Print Assumptions C10_position_root_inv.
+
+(* ---- C10_line_recorded ---- *)
+Theorem C10_line_inv_spec : forall T base prefix zh st, line_inv T base prefix zh st <->
+  zh = zobrist_hash T (s_board st) /\ ply_clock_w (s_board st) = base + N.of_nat (length prefix) /\
+  (forall i B, nth_error prefix i = Some B -> hget (s_history st) (base + N.of_nat i) = zobrist_hash T B) /\
+  (forall j, j < base -> hget (s_history st) j = 0).
+Proof. exact line_inv_spec. Qed.
+Print Assumptions C10_line_inv_spec.
+
+(* the only write of a node to the history is `set(ply_clock, hash)` in the prelude; the contempt factor is only read *)
+Theorem C10_node_writes_own_index : forall T orc ply rd a0 b0 zh st,
+  let r := node_prelude T orc ply rd a0 b0 zh st in
+  s_contempt (snd r) = s_contempt st /\
+  (s_history (snd r) = s_history st \/ s_history (snd r) = hset (s_history st) (ply_clock_w (s_board st)) zh) /\
+  (forall alpha beta ttm buffer, fst r = PreGo alpha beta ttm buffer ->
+     s_history (snd r) = hset (s_history st) (ply_clock_w (s_board st)) zh).
+Proof. exact node_prelude_hist. Qed.
+Print Assumptions C10_node_writes_own_index.
+
+(* at the moment the node has stored its hash, the history holds the hashes of the whole path game ++ line ++ node *)
+Theorem C10_line_recorded_path : forall T base prefix zh st, line_inv T base prefix zh st ->
+  forall i B, nth_error (prefix ++ [s_board st]) i = Some B ->
+  hget (hset (s_history st) (ply_clock_w (s_board st)) zh) (base + N.of_nat i) = zobrist_hash T B.
+Proof. exact line_inv_after_set. Qed.
+Print Assumptions C10_line_recorded_path.
+
+(* The invariant is inductive along the recursion.  [negamax_asserting bad base prefix] is [negamax] with a run-time
+   assertion of `line_inv base prefix` at the entry of every node (prefix ++ [board] one ply down) that returns
+   [bad st] -- anything -- when it fails.  From a node that satisfies the invariant:
+   (a) the asserting search is the search for EVERY bad: no node below is ever entered in a state violating the
+       invariant (the hash handed down is the Zobrist hash of the child: C06_incremental is threaded through);
+   (b) on return the board and the contempt factor are back, and no entry BELOW the node's own ply clock has
+       changed: sibling lines only leave stale entries at or above it. *)
+Theorem C10_line_recorded : forall T good Q, search_family T good Q ->
+  forall orc d bad base prefix ply a0 b0 ispv zh zph st,
+  line_inv T base prefix zh st -> good (d + S Q)%nat (s_board st) ->
+  base + N.of_nat (length prefix) + N.of_nat d < 65536 ->
+  negamax_asserting T orc bad base prefix d ply a0 b0 ispv zh zph st = negamax T orc d ply a0 b0 ispv zh zph st /\
+  s_board (snd (negamax T orc d ply a0 b0 ispv zh zph st)) = s_board st /\
+  s_contempt (snd (negamax T orc d ply a0 b0 ispv zh zph st)) = s_contempt st /\
+  agree_lt (ply_clock_w (s_board st)) (s_history st) (s_history (snd (negamax T orc d ply a0 b0 ispv zh zph st))).
+Proof. exact line_recorded_thm. Qed.
+Print Assumptions C10_line_recorded.
+
+(* the definition of the asserting search, so that (a) can be read without opening the proofs file *)
+Theorem C10_negamax_asserting_unfold : forall T orc bad base prefix d ply a0 b0 ispv zh zph st,
+  negamax_asserting T orc bad base prefix d ply a0 b0 ispv zh zph st =
+  if line_invb T base prefix zh st then
+    match node_prelude T orc ply (N.of_nat d) a0 b0 zh st with
+    | (PreReturn r, st3) => (r, st3)
+    | (PreGo alpha beta tt_move buffer, st3) =>
+        match d with
+        | O => leaf_node T (turn (s_board st)) alpha beta zph buffer st3
+        | S d' => interior_node T (negamax_asserting T orc bad base (prefix ++ [s_board st]) d' (ply + 1))
+                                (turn (s_board st)) ply (N.of_nat d) a0 ispv zh zph alpha beta tt_move buffer st3
+        end
+    end
+  else bad st.
+Proof. exact negamax_asserting_unfold. Qed.
+Print Assumptions C10_negamax_asserting_unfold.
+
+Theorem C10_negamax_unfold : forall T orc d ply a0 b0 ispv zh zph st,
+  negamax T orc d ply a0 b0 ispv zh zph st =
+  match node_prelude T orc ply (N.of_nat d) a0 b0 zh st with
+  | (PreReturn r, st3) => (r, st3)
+  | (PreGo alpha beta tt_move buffer, st3) =>
+      match d with
+      | O => leaf_node T (turn (s_board st)) alpha beta zph buffer st3
+      | S d' => interior_node T (negamax T orc d' (ply + 1)) (turn (s_board st)) ply (N.of_nat d) a0 ispv zh zph
+                              alpha beta tt_move buffer st3
+      end
+  end.
+Proof. exact negamax_unfold. Qed.
+Print Assumptions C10_negamax_unfold.
+
+(* stale entries above the start index are never read *)
+Theorem C10_count_reads_below : forall h h' i hm, (forall j, j <= i -> hget h j = hget h' j) ->
+  count_repetitions h i hm = count_repetitions h' i hm.
+Proof. exact count_reads_below. Qed.
+Print Assumptions C10_count_reads_below.
+
+Theorem C10_visit_reads_below : forall h h' d p key hm, (forall j, j < p -> hget h j = hget h' j) ->
+  snd (visit h d p key hm) = snd (visit h' d p key hm).
+Proof. exact visit_reads_below. Qed.
+Print Assumptions C10_visit_reads_below.
+
+(* the root of every iteration of iterative deepening starts from the invariant and hands it on *)
+Theorem C10_root_iteration_inv : forall T good Q, search_family T good Q ->
+  forall orc mt a base prefix,
+  line_inv T base prefix (zobrist_hash T (s_board (id_st a))) (id_st a) ->
+  good (id_fuel a + S Q)%nat (s_board (id_st a)) ->
+  base + N.of_nat (length prefix) + N.of_nat (id_fuel a) < 65536 ->
+  (forall bad, negamax_asserting T orc bad base prefix (id_fuel a) 0 (loss_score T) (Ink.Model.Tables.win_score T)
+                 (match s_pv (id_st a) with Some _ => true | None => false end)
+                 (zobrist_hash T (s_board (id_st a))) (pawn_hash T (s_board (id_st a))) (id_st a) = root_call T orc a) /\
+  s_board (id_st (id_next T orc mt a)) = s_board (id_st a) /\
+  line_inv T base prefix (zobrist_hash T (s_board (id_st (id_next T orc mt a)))) (id_st (id_next T orc mt a)).
+Proof. exact root_iteration_inv_thm. Qed.
+Print Assumptions C10_root_iteration_inv.
+
+(* ---- C10_leaf_iff_threefold ----
+   keys = hashes of game ++ line ++ node (oldest first), hm = the node's half-move clock as the code casts it.
+   parity_ok_keys / no_dist2_keys (Spec/Draws.v) are the two facts of chess about hashes of positions of one game:
+   a position an odd number of plies back has the other side to move, the position two plies back differs. *)
+Theorem C10_leaf_iff_threefold : forall T base prefix ply zh st,
+  line_inv T base prefix zh st ->
+  let keys := line_keys T prefix (s_board st) in
+  let hm := half (s_board st) mod 65536 in
+  hm + 1 <= lenN keys -> parity_ok_keys keys -> no_dist2_keys keys ->
+  (repetition_flag ply zh st = true <-> 0 < ply /\ threefold keys hm).
+Proof. exact leaf_iff_threefold. Qed.
+Print Assumptions C10_leaf_iff_threefold.
+
+(* the half-move clock of the FEN may reach back beyond the FEN: the entries below it are 0, so provided the hash
+   of the node is not 0 the test counts the recorded positions only (and so does [threefold]: [take] stops) *)
+Theorem C10_leaf_iff_threefold_gen : forall T base prefix ply zh st,
+  line_inv T base prefix zh st ->
+  let keys := line_keys T prefix (s_board st) in
+  let hm := half (s_board st) mod 65536 in
+  zh <> 0 -> parity_ok_keys keys -> no_dist2_keys keys ->
+  (repetition_flag ply zh st = true <-> 0 < ply /\ threefold keys hm).
+Proof. exact leaf_iff_threefold_gen. Qed.
+Print Assumptions C10_leaf_iff_threefold_gen.
+
+Theorem C10_leaf_taken_iff_threefold : forall T orc base prefix ply zh st,
+  line_inv T base prefix zh st ->
+  let keys := line_keys T prefix (s_board st) in
+  let hm := half (s_board st) mod 65536 in
+  hm + 1 <= lenN keys \/ zh <> 0 -> parity_ok_keys keys -> no_dist2_keys keys ->
+  (repetition_leaf_taken T orc ply zh st <-> fst (poll_block T orc st) = None /\ 0 < ply /\ threefold keys hm).
+Proof. exact leaf_taken_iff_threefold. Qed.
+Print Assumptions C10_leaf_taken_iff_threefold.
+
+(* ---- C10_leaf_value ---- *)
+(* what the prelude returns, by cases on the poll and on the flag (this is where `repetition_leaf_taken` comes from) *)
+Theorem C10_node_prelude_cases : forall T orc ply rd a0 b0 zh st,
+  match fst (poll_block T orc st) with
+  | Some r => fst (node_prelude T orc ply rd a0 b0 zh st) = PreReturn r
+  | None =>
+      if repetition_flag ply zh st
+      then fst (node_prelude T orc ply rd a0 b0 zh st)
+           = PreReturn (leaf (Ink.Model.Tables.draw_score T + contempt_sign ply * s_contempt st)%Z)
+      else True
+  end.
+Proof. exact node_prelude_cases. Qed.
+Print Assumptions C10_node_prelude_cases.
+
+(* value = draw score + contempt at even ply, - contempt at odd ply; no move, no continuation; whatever the depth,
+   the window, the PV flag -- and the board is not mentioned on the right-hand side *)
+Theorem C10_leaf_value : forall T orc d ply a0 b0 ispv zh zph st,
+  repetition_leaf_taken T orc ply zh st ->
+  fst (negamax T orc d ply a0 b0 ispv zh zph st)
+  = VM (Ink.Model.Tables.draw_score T + (if N.even ply then 1 else -1) * s_contempt st)%Z None None.
+Proof. exact leaf_value. Qed.
+Print Assumptions C10_leaf_value.
+
+(* irrespective of material: ANY two states (any two boards) that take the leaf at plies of the same parity get the
+   same value *)
+Theorem C10_leaf_value_any_board : forall T orc d d' ply ply' a0 b0 a0' b0' ispv ispv' zh zh' zph zph' st st',
+  repetition_leaf_taken T orc ply zh st -> repetition_leaf_taken T orc ply' zh' st' ->
+  N.even ply = N.even ply' -> s_contempt st = s_contempt st' ->
+  fst (negamax T orc d ply a0 b0 ispv zh zph st) = fst (negamax T orc d' ply' a0' b0' ispv' zh' zph' st').
+Proof. exact leaf_value_any_board. Qed.
+Print Assumptions C10_leaf_value_any_board.
+
+(* never at the root *)
+Theorem C10_root_never_leaf : forall zh st, repetition_flag 0 zh st = false.
+Proof. exact root_never_leaf. Qed.
+Print Assumptions C10_root_never_leaf.
+
+Theorem C10_root_never_leaf_taken : forall T orc zh st, ~ repetition_leaf_taken T orc 0 zh st.
+Proof. exact root_never_leaf_taken. Qed.
+Print Assumptions C10_root_never_leaf_taken.
+
+(* the contempt factor is the constant the engine was created with, whatever the session *)
+Theorem C10_contempt_fixed : forall T cmds,
+  s_contempt (run_commands T cmds (init_state T)) = Ink.Model.Tables.contempt T.
+Proof. exact contempt_fixed. Qed.
+Print Assumptions C10_contempt_fixed.
+
+(* ---- C10_fifty_in_search ---- *)
+(* [evaluate] by branches: the fifty-move branch is the only one that reads the half-move clock, and it is only
+   reachable with legal_moves_remaining = true *)
+Theorem C10_evaluate_branches : forall T b lm,
+  evaluate T b lm =
+  if fifty_branch_taken T b lm then Ink.Model.Tables.draw_score T
+  else if lm then evaluate_ongoing T b
+  else if is_current_in_check T b then
+         if turn b =? WHITE then (loss_score T + to_i32 (full b))%Z
+         else if turn b =? BLACK then (Ink.Model.Tables.win_score T - to_i32 (full b))%Z
+         else Ink.Model.Tables.draw_score T
+       else Ink.Model.Tables.draw_score T.
+Proof. exact evaluate_branches. Qed.
+Print Assumptions C10_evaluate_branches.
+
+Theorem C10_fifty_taken_iff : forall T b lm,
+  fifty_branch_taken T b lm = true <-> lm = true /\ Ink.Model.Tables.max_half_moves T <= half b.
+Proof. exact fifty_taken_iff. Qed.
+Print Assumptions C10_fifty_taken_iff.
+
+(* with the constant of the current tree: the branch is taken iff 100 plies have passed; then the value is the draw
+   score; before, a position with legal moves gets its ordinary evaluation *)
+Theorem C10_fifty_in_search : forall b,
+  (fifty_branch_taken Ink.Gen.Tables.tables b true = true <-> 100 <= half b) /\
+  (fifty_branch_taken Ink.Gen.Tables.tables b true = true ->
+     evaluate Ink.Gen.Tables.tables b true = Ink.Model.Tables.draw_score Ink.Gen.Tables.tables) /\
+  (half b < 100 -> evaluate Ink.Gen.Tables.tables b true = evaluate_ongoing Ink.Gen.Tables.tables b).
+Proof. exact fifty_in_search_gen. Qed.
+Print Assumptions C10_fifty_in_search.
+
+(* where the search calls it with `true`: the quiet horizon leaf with a legal move ... *)
+Theorem C10_fifty_leaf_node : forall T color alpha beta zph buffer st st1,
+  any_move_legal T buffer st = (true, st1) -> is_any_move_non_quiescent buffer = false ->
+  fst (leaf_node T color alpha beta zph buffer st) =
+  leaf (heuristic_factor color *
+        (if fifty_branch_taken T (s_board st1) true then Ink.Model.Tables.draw_score T
+         else evaluate_ongoing T (s_board st1)))%Z.
+Proof. exact leaf_node_quiet_value. Qed.
+Print Assumptions C10_fifty_leaf_node.
+
+(* ... (the stand-pat value of the capture search is the other one: evaluate_for _ _ true in Model/Search.v);
+   a horizon leaf WITHOUT a legal move is mate or stalemate, never the fifty-move branch *)
+Theorem C10_fifty_not_terminal : forall T color alpha beta zph buffer st st1,
+  any_move_legal T buffer st = (false, st1) ->
+  fst (leaf_node T color alpha beta zph buffer st) = leaf (evaluate_for T color (s_board st1) false) /\
+  fifty_branch_taken T (s_board st1) false = false.
+Proof. exact leaf_node_terminal_value. Qed.
+Print Assumptions C10_fifty_not_terminal.
+
+(* ---- a concrete line, computed: 1.Nf3 Nf6 2.Ng1 Ng8 3.Nf3 Nf6 4.Ng1 and now ...Ng8 ---- *)
+Theorem C10_example_knight_shuffle :
+  length ex_path = 8%nat /\
+  line_invb ex_T 0 (removelast ex_path) (zobrist_hash ex_T (s_board ex_root)) ex_root = true /\
+  match ex_child with
+  | Some (st, zh) =>
+      repetition_flag 1 zh st = true /\ repetition_flag 0 zh st = false /\
+      fst (negamax ex_T ex_orc 0 1 (-100000)%Z 100000%Z false zh 0 st) = VM (-50)%Z None None /\
+      fst (negamax ex_T ex_orc 2 1 (-100000)%Z 100000%Z false zh 0 st) = VM (-50)%Z None None /\
+      fst (negamax ex_T ex_orc 0 2 (-100000)%Z 100000%Z false zh 0 st) = VM 50%Z None None
+  | None => False
+  end /\
+  (let zh := zobrist_hash ex_T (s_board ex_root) in
+   let zp := pawn_hash ex_T (s_board ex_root) in
+   let r := negamax ex_T ex_orc 2 0 (loss_score ex_T) (Ink.Model.Tables.win_score ex_T) false zh zp ex_root in
+   let r' := negamax_asserting ex_T ex_orc ex_poison 0 (removelast ex_path) 2 0 (loss_score ex_T)
+                               (Ink.Model.Tables.win_score ex_T) false zh zp ex_root in
+   (vm_value (fst r), s_nm_nodes (snd r), s_panicked (snd r)) = (vm_value (fst r'), s_nm_nodes (snd r'), s_panicked (snd r')) /\
+   s_panicked (snd r) = false).
+Proof. exact knight_shuffle. Qed.
+Print Assumptions C10_example_knight_shuffle.
+
+(* outside the stated range (full-move number 0, Black to move: accepted by the FEN reader) the ply clock goes 1, 0 *)
+Theorem C10_example_clock_fullmove_zero :
+  let b0 := board_of_fen (ex_fen (lit "4k3/8/8/8/8/8/8/4K3 b - - 0 0")) in
+  full b0 = 0 /\ ply_clock_w b0 = 1 /\
+  match find (fun m => (src m =? 4) && (dst m =? 3)) (gen_pseudo ex_T b0) with
+  | Some m => match make b0 m with
+              | Some b1 => ply_clock_w b1 = 0
+              | None => False
+              end
+  | None => False
+  end.
+Proof. exact clock_fullmove_zero. Qed.
+Print Assumptions C10_example_clock_fullmove_zero.
+
+(* ==================================================================================================================
+   THE CHESS INSTANCE (Proofs/RepetitionInstance.v on top of Proofs/ChessInstance.v): `search_family` holds for the
+   regenerated tables with
+     good_c10 T n b = wf b, rights_wf b, ep_free b, is_valid T b, half b + n < 4096   (good_chess, ChessInstance)
+                      + ep_wf b (an e.p. square has the capturable pawn behind it) + full-move number >= 1,
+   all of them executable checks on the position (good_c10b).  No abstract family is left in the statements below.
+   ================================================================================================================== *)
+Require Import Ink.Proofs.MakeUnmake Ink.Proofs.Preserve Ink.Proofs.ChessInstance Ink.Proofs.RepetitionInstance.
+
+Theorem C10_good_c10_def : forall T n b, good_c10 T n b <->
+  (wf b = true /\ rights_wf b = true /\ ep_free b = true /\ is_valid T b = true /\ half b + N.of_nat n < 4096) /\
+  Ink.Proofs.ZobristProofs.ep_wf b = true /\ 1 <= full b.
+Proof. exact good_c10_def. Qed.
+Print Assumptions C10_good_c10_def.
+
+Theorem C10_good_c10b_spec : forall T n b, good_c10b T n b = true <-> good_c10 T n b.
+Proof. exact good_c10b_spec. Qed.
+Print Assumptions C10_good_c10b_spec.
+
+(* every generated move leaves a well-formed e.p. square behind (the missing piece for threading C06 through) *)
+Theorem C10_generated_ep_wf : forall T, tables_chess_ok T = true ->
+  forall b m b', wf b = true -> In m (gen_pseudo T b) -> make b m = Some b' -> Ink.Proofs.ZobristProofs.ep_wf b' = true.
+Proof. intros T HT b m b' Hwf Hin. exact (generated_ep_wf T HT b m b' Hwf (Ink.Proofs.GenShape.gen_pseudo_cases T b m Hin)). Qed.
+Print Assumptions C10_generated_ep_wf.
+
+Theorem C10_search_family_gen : search_family Ink.Gen.Tables.tables (good_c10 Ink.Gen.Tables.tables) 129.
+Proof. exact gen_search_family. Qed.
+Print Assumptions C10_search_family_gen.
+
+Theorem C10_line_recorded_chess : forall orc d bad base prefix ply a0 b0 ispv zh zph st,
+  line_inv Ink.Gen.Tables.tables base prefix zh st -> good_c10 Ink.Gen.Tables.tables (d + 130) (s_board st) ->
+  base + N.of_nat (length prefix) + N.of_nat d < 65536 ->
+  negamax_asserting Ink.Gen.Tables.tables orc bad base prefix d ply a0 b0 ispv zh zph st
+  = negamax Ink.Gen.Tables.tables orc d ply a0 b0 ispv zh zph st /\
+  s_board (snd (negamax Ink.Gen.Tables.tables orc d ply a0 b0 ispv zh zph st)) = s_board st /\
+  s_contempt (snd (negamax Ink.Gen.Tables.tables orc d ply a0 b0 ispv zh zph st)) = s_contempt st /\
+  agree_lt (ply_clock_w (s_board st)) (s_history st)
+           (s_history (snd (negamax Ink.Gen.Tables.tables orc d ply a0 b0 ispv zh zph st))).
+Proof. exact line_recorded_chess. Qed.
+Print Assumptions C10_line_recorded_chess.
+
+Theorem C10_root_iteration_inv_chess : forall orc mt a base prefix,
+  line_inv Ink.Gen.Tables.tables base prefix (zobrist_hash Ink.Gen.Tables.tables (s_board (id_st a))) (id_st a) ->
+  good_c10 Ink.Gen.Tables.tables (id_fuel a + 130) (s_board (id_st a)) ->
+  base + N.of_nat (length prefix) + N.of_nat (id_fuel a) < 65536 ->
+  (forall bad, negamax_asserting Ink.Gen.Tables.tables orc bad base prefix (id_fuel a) 0
+                 (loss_score Ink.Gen.Tables.tables) (Ink.Model.Tables.win_score Ink.Gen.Tables.tables)
+                 (match s_pv (id_st a) with Some _ => true | None => false end)
+                 (zobrist_hash Ink.Gen.Tables.tables (s_board (id_st a))) (pawn_hash Ink.Gen.Tables.tables (s_board (id_st a)))
+                 (id_st a)
+               = root_call Ink.Gen.Tables.tables orc a) /\
+  s_board (id_st (id_next Ink.Gen.Tables.tables orc mt a)) = s_board (id_st a) /\
+  line_inv Ink.Gen.Tables.tables base prefix
+           (zobrist_hash Ink.Gen.Tables.tables (s_board (id_st (id_next Ink.Gen.Tables.tables orc mt a))))
+           (id_st (id_next Ink.Gen.Tables.tables orc mt a)).
+Proof. exact root_iteration_inv_chess. Qed.
+Print Assumptions C10_root_iteration_inv_chess.
+
+(* position command -> recorded game -> the invariant at the root; the FEN position has to leave room on the
+   12-bit clock of Move for the moves of the game (good_chess with index = number of moves) *)
+Theorem C10_position_root_inv_chess : forall f moves b h played st,
+  let P0 := board_of_fen f in
+  good_chess Ink.Gen.Tables.tables (length moves) P0 -> 1 <= full P0 -> ply_count P0 + N.of_nat (length moves) < 65536 ->
+  position_result Ink.Gen.Tables.tables f moves = PosOk b h played ->
+  exists bs, legal_line Ink.Gen.Tables.tables P0 played bs /\ length played = length moves /\ b = last bs P0 /\
+    (forall i B, nth_error (P0 :: bs) i = Some B -> ply_clock_w B = ply_clock_w P0 + N.of_nat i) /\
+    h = record_from hempty (ply_clock_w P0) (map (zobrist_hash Ink.Gen.Tables.tables) (P0 :: bs)) /\
+    line_inv Ink.Gen.Tables.tables (ply_clock_w P0) (removelast (P0 :: bs)) (zobrist_hash Ink.Gen.Tables.tables b)
+             (set_position_from Ink.Gen.Tables.tables f moves st).
+Proof. exact position_root_inv_chess. Qed.
+Print Assumptions C10_position_root_inv_chess.
+
+(* satisfiable: the start position, and the root of the knight-shuffle example above *)
+Theorem C10_good_c10_startpos : good_c10 Ink.Gen.Tables.tables 3965 (board_of_fen (ex_fen STARTPOS)).
+Proof. exact good_c10_startpos. Qed.
+Print Assumptions C10_good_c10_startpos.
+
+Theorem C10_good_c10_knight_shuffle : good_c10 Ink.Gen.Tables.tables 3000 (s_board ex_root).
+Proof. exact good_c10_knight_shuffle. Qed.
+Print Assumptions C10_good_c10_knight_shuffle.
